@@ -433,7 +433,7 @@ impl Core {
                 rec["ev"] = ev;
                 rec["ls"] = ls;
                 rec["lk"] = lk;
-                if self.proj {
+                if self.proj || b(r, "probe") {
                     let p = std::panic::catch_unwind(AssertUnwindSafe(|| self.projection()));
                     if let Ok(p) = p {
                         rec["proj"] = p;
